@@ -327,12 +327,12 @@ Ltac closed_str :=
 Ltac cev1 :=
   cbv [sem defd declines ev ty_of conv cty_eqb promote join is_int is_cmp is_shift cmp_ev arith_ev
        in_range tmin tmax width is_signed nth List.length Nat.ltb Nat.leb libfn_ev
-       spec in_dom a0 a1 a2 red div_ok smin smax].
+       spec in_dom a0 a1 a2 a3 wbase red div_ok smin smax].
 
 Ltac cev := cev1; closed_str; cev1.
 
 Ltac cev_in H :=
-  cbv [in_dom a0 a1 a2 red div_ok smin smax nth] in H.
+  cbv [in_dom a0 a1 a2 a3 red div_ok smin smax nth] in H.
 
 Ltac is_zlit a := lazymatch a with Zpos _ => idtac | Zneg _ => idtac | Z0 => idtac end.
 
@@ -377,9 +377,63 @@ Ltac range_rw :=
       rewrite (wrap_S64_id (Z.quot a b)) by (apply quot_srange; [srange_solve | unfold wrap in *; lia | unfold wrap in *; lia])
   end.
 
+(* ------------------------------------------------------------------ double-word arithmetic *)
+
+Lemma land_lo32 x : Z.land x 4294967295 = x mod 4294967296.
+Proof. change 4294967295 with (Z.ones 32). rewrite Z.land_ones by lia. reflexivity. Qed.
+Lemma shr32 x : Z.shiftr x 32 = x / 4294967296.
+Proof. rewrite Z.shiftr_div_pow2 by lia. reflexivity. Qed.
+Lemma shl32 x : Z.shiftl x 32 = x * 4294967296.
+Proof. rewrite Z.shiftl_mul_pow2 by lia. reflexivity. Qed.
+Lemma wrap_U64_id z : 0 <= z < 18446744073709551616 -> wrap U64 z = z.
+Proof. intro H. unfold wrap. apply Z.mod_small. lia. Qed.
+
+Ltac drop_wraps :=
+  repeat match goal with
+  | |- context [wrap U64 ?x] => rewrite (wrap_U64_id x) by lia
+  end.
+
+(* schoolbook product of two words from their 32-bit halves (dword.c:xxTimesDouble):
+   name the halves and the four partial products, bound them, state the product identity;
+   what is left is linear arithmetic with div/mod by constants and carry comparisons *)
+Ltac solve_dword a b :=
+  rewrite ?land_lo32, ?shr32, ?shl32;
+  pose proof (Z.mod_pos_bound a 4294967296 ltac:(lia));
+  pose proof (Z.mod_pos_bound b 4294967296 ltac:(lia));
+  assert (0 <= a / 4294967296 < 4294967296) by (split; [apply Z.div_pos; lia | apply Z.div_lt_upper_bound; lia]);
+  assert (0 <= b / 4294967296 < 4294967296) by (split; [apply Z.div_pos; lia | apply Z.div_lt_upper_bound; lia]);
+  let Ea := fresh "Ea" in let Eb := fresh "Eb" in
+  pose proof (Z.div_mod a 4294967296 ltac:(lia)) as Ea;
+  pose proof (Z.div_mod b 4294967296 ltac:(lia)) as Eb;
+  let Al := fresh "Al" in let Ah := fresh "Ah" in let Bl := fresh "Bl" in let Bh := fresh "Bh" in
+  set (Al := a mod 4294967296) in *; set (Ah := a / 4294967296) in *;
+  set (Bl := b mod 4294967296) in *; set (Bh := b / 4294967296) in *;
+  assert (0 <= Al * Bl <= 4294967295 * 4294967295) by nia;
+  assert (0 <= Al * Bh <= 4294967295 * 4294967295) by nia;
+  assert (0 <= Ah * Bl <= 4294967295 * 4294967295) by nia;
+  assert (0 <= Ah * Bh <= 4294967295 * 4294967295) by nia;
+  let Hp := fresh "Hp" in
+  assert (Hp : a * b = Ah * Bh * 18446744073709551616 + (Al * Bh + Ah * Bl) * 4294967296 + Al * Bl) by nia;
+  rewrite Hp; clear Hp Ea Eb;
+  let p1 := fresh "p1" in let p2 := fresh "p2" in let p3 := fresh "p3" in let p4 := fresh "p4" in
+  repeat (drop_wraps;
+          try set (p1 := Ah * Bh) in *; try set (p2 := Al * Bh) in *;
+          try set (p3 := Ah * Bl) in *; try set (p4 := Al * Bl) in * );
+  clearbody p1 p2 p3 p4;
+  unfold wrap; lia.
+
+Ltac solve_dword_goal :=
+  lazymatch goal with
+  | |- _ = (?a * ?b) / _ => solve_dword a b
+  | |- _ = (?a * ?b) mod _ => solve_dword a b
+  | |- _ = (?a * ?b + _ + _) / _ => solve_dword a b
+  | |- _ = (?a * ?b + _ + _) mod _ => solve_dword a b
+  end.
+
 Ltac solve_val :=
   first
     [ reflexivity
+    | solve [timeout 300 solve_dword_goal]
     | solve [range_rw; reflexivity]
     | solve [range_rw; rewrite land_bit_zero by lia;
              match goal with |- context [Z.testbit ?a ?b] => destruct (Z.testbit a b) end; reflexivity]
@@ -404,7 +458,7 @@ Ltac vm_decide := lazymatch goal with |- ?x = true => vm_cast_no_check (eq_refl 
    all operand types are finite, the exhaustive check *)
 Ltac solve_meets :=
   first
-    [ solve [timeout 60 solve_sym]
+    [ solve [timeout 400 solve_sym]
     | apply finite_row_meets; [vm_compute; reflexivity | vm_compute; reflexivity | vm_compute; reflexivity] ].
 
 Ltac in_list := cbn [In]; repeat first [left; reflexivity | right]; fail.
@@ -515,18 +569,65 @@ Definition is_declined (e : cexp) : bool := match e with Declined => true | _ =>
 (* the folder row under a (possible) guard *)
 Definition unguard (e : cexp) : cexp := match e with Guard _ a => a | _ => e end.
 
-(* the interpreter has exactly one translated row for the builtin; every row of
-   the generated-C table and every folding row of the folder has the same core *)
-Definition sameop_check (cf fi gc : list row) (n : string) : bool :=
-  match lookup_all n fi with
-  | [r] =>
-      negb (has_opaque (rexp r))
-      && negb (Nat.eqb (List.length (lookup_all n gc)) 0)
-      && forallb (fun g => cexp_eqb (core (rexp g)) (core (rexp r))) (lookup_all n gc)
-      && forallb (fun c => is_declined (rexp c) || cexp_eqb (core (unguard (rexp c))) (core (rexp r)))
-                 (lookup_all n cf)
-  | _ => false
+(* float-friendly normal form, for the same-operation comparison only.  The constants 0 and 1
+   convert exactly between every arithmetic type, so a (cast of a) literal 0 / 1 / 0.0 / 1.0 is one
+   constant whatever its spelling;  `x ? 0 : 1`  is  `x == 0`  for a float x (NaN included: both 0);
+   `cmp ? 1 : 0` is `cmp`;  comparing a float with the int 0 is comparing it with 0.0 *)
+Definition is_float (t : cty) : bool := match t with F32 | F64 => true | _ => false end.
+
+Fixpoint lit01 (e : cexp) : option Z :=
+  match e with
+  | Lit z _ => if (z =? 0) || (z =? 1) then Some z else None
+  | FLit s _ => if String.eqb s "0.0" then Some 0%Z else if String.eqb s "1.0" then Some 1%Z else None
+  | Cast _ a => lit01 a
+  | _ => None
   end.
+
+Definition FZ : cexp := FLit "0.0" F64.
+Definition FONE : cexp := FLit "1.0" F64.
+
+Definition cmp_headed (e : cexp) : bool :=
+  match e with Bin o _ _ => is_cmp o | Un LNot _ => true | _ => false end.
+
+Fixpoint fnorm (e : cexp) : cexp :=
+  match lit01 e with
+  | Some z => if z =? 0 then FZ else FONE
+  | None =>
+      match e with
+      | Cond c a b =>
+          match lit01 a, lit01 b with
+          | Some 0%Z, Some 1%Z => if is_float (ty_of c) then Bin Eq (fnorm c) FZ else e
+          | Some 1%Z, Some 0%Z => if cmp_headed c then fnorm c else e
+          | _, _ => e
+          end
+      | Bin o a b =>
+          if is_cmp o && is_float (ty_of a) then Bin o (fnorm a) (fnorm b) else e
+      | _ => e
+      end
+  end.
+
+Definition same_core (a b : cexp) : bool := cexp_eqb (fnorm (core a)) (fnorm (core b)).
+
+(* rows of builtin n: the row named n, or its components "n#k" when it has several results *)
+Definition is_row_of (n : string) (r : row) : bool :=
+  String.eqb (rname r) n || String.prefix (n ++ "#") (rname r).
+
+Definition rows_of (n : string) (t : list row) : list row := filter (is_row_of n) t.
+
+(* the interpreter has translated row(s) for the builtin; every row of the same name in the
+   generated-C table and every folding row of the folder has the same core, and the
+   generated-C table has no further row of the builtin *)
+Definition sameop_check (cf fi gc : list row) (n : string) : bool :=
+  let fr := rows_of n fi in
+  negb (Nat.eqb (List.length fr) 0)
+  && forallb (fun r =>
+        negb (has_opaque (rexp r))
+        && Nat.eqb (List.length (lookup_all (rname r) fi)) 1
+        && negb (Nat.eqb (List.length (lookup_all (rname r) gc)) 0)
+        && forallb (fun g => same_core (rexp g) (rexp r)) (lookup_all (rname r) gc)
+        && forallb (fun c => is_declined (rexp c) || same_core (unguard (rexp c)) (rexp r))
+                   (lookup_all (rname r) cf)) fr
+  && forallb (fun g => existsb (fun r => String.eqb (rname r) (rname g)) fr) (rows_of n gc).
 
 (* ------------------------------------------------------------------ coverage *)
 
@@ -543,27 +644,40 @@ Definition exactly_one (A B C : Prop) : Prop :=
   (A /\ ~ B /\ ~ C) \/ (~ A /\ B /\ ~ C) \/ (~ A /\ ~ B /\ C).
 
 (* the three classes: specified and proved / same operation / excluded by name *)
-Definition in_spec_class (n : string) : Prop := sop_of n <> None.
+Definition comp0 (n : string) : string := (n ++ "#0")%string.
+(* specified directly, or a multi-result builtin whose components "n#k" are specified *)
+Definition spec_class_b (n : string) : bool :=
+  match sop_of n, sop_of (comp0 n) with None, None => false | _, _ => true end.
+Definition in_spec_class (n : string) : Prop := sop_of n <> None \/ sop_of (comp0 n) <> None.
 Definition in_sameop_class (n : string) : Prop := In n sameop_names.
 Definition in_excluded_class (n : string) : Prop := assoc n excluded <> None.
 
 Definition one_class (n : string) : bool :=
-  match sop_of n, memb n sameop_names, assoc n excluded with
-  | Some _, false, None => true
-  | None, true, None => true
-  | None, false, Some _ => true
+  match spec_class_b n, memb n sameop_names, assoc n excluded with
+  | true, false, None => true
+  | false, true, None => true
+  | false, false, Some _ => true
   | _, _, _ => false
   end.
+
+Lemma spec_class_b_spec n : spec_class_b n = true <-> in_spec_class n.
+Proof.
+  unfold spec_class_b, in_spec_class. destruct (sop_of n); destruct (sop_of (comp0 n)); split; intro H;
+    try reflexivity; try discriminate; try (left; congruence); try (right; congruence).
+  destruct H as [H|H]; congruence.
+Qed.
 
 Lemma one_class_spec n : one_class n = true ->
   exactly_one (in_spec_class n) (in_sameop_class n) (in_excluded_class n).
 Proof.
-  unfold one_class, exactly_one, in_spec_class, in_sameop_class, in_excluded_class.
-  destruct (sop_of n); destruct (memb n sameop_names) eqn:Hm; destruct (assoc n excluded);
+  unfold one_class, exactly_one, in_sameop_class, in_excluded_class.
+  pose proof (spec_class_b_spec n) as Hs.
+  destruct (spec_class_b n); destruct (memb n sameop_names) eqn:Hm; destruct (assoc n excluded);
     intro H; try discriminate.
-  - left. repeat split; try congruence. intro K. apply memb_In in K. congruence.
-  - right. left. repeat split; try congruence. apply memb_In. assumption.
-  - right. right. repeat split; try congruence. intro K. apply memb_In in K. congruence.
+  - left. repeat split; try congruence; [apply Hs; reflexivity|]. intro K. apply memb_In in K. congruence.
+  - right. left. repeat split; try congruence; [intro K; apply Hs in K; discriminate|]. apply memb_In. assumption.
+  - right. right. repeat split; try congruence; [intro K; apply Hs in K; discriminate|].
+    intro K. apply memb_In in K. congruence.
 Qed.
 
 Lemma Forall_of_forallb {A} (f : A -> bool) (P : A -> Prop) l :
